@@ -23,7 +23,7 @@ OUT=/verif/seeded/$ID/$L
 mkdir -p "$OUT"
 cp "$PATCH" "$OUT/patch.diff"; cp "$DEMO" "$OUT/demo.rs"; cp "$META" "$OUT/meta.json"
 
-demo_loc=$(python3 -c "import json,sys;print(json.load(open('$META')).get('demo_location','tests/demo_$l.rs'))")
+demo_loc=$(python3 -c "import json,sys;print((json.load(open('$META')).get('demo_location') or 'tests/demo_$l.rs').split()[0])")
 case "$demo_loc" in temporal_capi/*) demo_pkg="-p temporal_capi"; demo_feat="";; *) demo_pkg=""; demo_feat="--features compiled_data";; esac
 if grep -q "verif_hooks" "$DEMO" && [ -z "$demo_pkg" ]; then demo_feat="--features compiled_data,verif_hooks"; fi
 demo_name=$(basename "$demo_loc" .rs)
